@@ -5,8 +5,12 @@ import traceback
 
 from harness import compat  # noqa: F401
 import numpy as np
-from distance3d import colliders, containment
+from distance3d import colliders, containment, geometry
+from distance3d.hydroelastic_contact import _rigid_body, _mesh_processing
 from harness.impl.c03 import build, pose4, arr, fl
+from harness.impl import shapes_trace as st
+
+TRACE_FILES = [containment.__file__, colliders.__file__, _rigid_body.__file__, _mesh_processing.__file__, geometry.__file__]
 
 
 def free_aabb(sh):
@@ -49,9 +53,18 @@ def run_rigid_body(sh):
     else:
         raise ValueError(mk)
     box = np.asarray(rb.aabb(), dtype=float)
-    return dict(aabb=[fl(box[:, 0]), fl(box[:, 1])],
-                vertices=np.asarray(rb.vertices_, dtype=float).tolist(),
-                tetrahedra=np.asarray(rb.tetrahedra_).astype(int).tolist())
+    out = dict(aabb=[fl(box[:, 0]), fl(box[:, 1])],
+               vertices=np.asarray(rb.vertices_, dtype=float).tolist(),
+               tetrahedra=np.asarray(rb.tetrahedra_).astype(int).tolist())
+    if sh.get("express_in") is not None:
+        # history: aabb() [cached tree] -> express_in(new frame) -> aabb() must describe the NEW stored vertices
+        F = pose4(sh["express_in"]["R"], sh["express_in"]["t"])
+        rb.express_in(F)
+        box2 = np.asarray(rb.aabb(), dtype=float)
+        out["after"] = dict(aabb=[fl(box2[:, 0]), fl(box2[:, 1])],
+                            vertices=np.asarray(rb.vertices_, dtype=float).tolist(),
+                            body2origin=np.asarray(rb.body2origin_, dtype=float).tolist())
+    return out
 
 
 def run_case(case):
@@ -88,8 +101,11 @@ def run_case(case):
 
 def main():
     payload = json.load(open(sys.argv[1]))
-    res = [run_case(c) for c in payload["cases"]]
-    json.dump(dict(results=res), open(sys.argv[2], "w"))
+    tracer = st.LineTracer(TRACE_FILES)
+    with tracer:
+        res = [run_case(c) for c in payload["cases"]]
+    hits = {k.split("/")[-1]: v for k, v in tracer.result().items()}
+    json.dump(dict(results=res, line_hits=hits), open(sys.argv[2], "w"))
 
 
 if __name__ == "__main__":
